@@ -127,8 +127,69 @@ namespace lab
 
     // ------------------------------------------------------------------ spaces
     // Every variant keeps (x,y) as the first two reals of copyToReals().
+    // R^2 whose samplers only hand out points of a quarter-cell lattice: exact distance ties and repeated states
+    // are the rule here (they essentially never occur with continuous sampling), so tie-breaking code is exercised
+    class LatticeSampler : public ob::RealVectorStateSampler
+    {
+    public:
+        LatticeSampler(const ob::StateSpace *sp) : ob::RealVectorStateSampler(sp)
+        {
+        }
+        void snap(ob::State *st)
+        {
+            auto *rs = static_cast<const ob::RealVectorStateSpace *>(space_);
+            const auto &b = rs->getBounds();
+            double *v = st->as<ob::RealVectorStateSpace::StateType>()->values;
+            for (unsigned i = 0; i < rs->getDimension(); ++i)
+            {
+                v[i] = std::round(v[i] * 4.0) / 4.0;
+                if (v[i] < b.low[i])
+                    v[i] = b.low[i];
+                if (v[i] > b.high[i])
+                    v[i] = b.high[i];
+            }
+        }
+        void sampleUniform(ob::State *st) override
+        {
+            ob::RealVectorStateSampler::sampleUniform(st);
+            snap(st);
+        }
+        void sampleUniformNear(ob::State *st, const ob::State *near, double d) override
+        {
+            ob::RealVectorStateSampler::sampleUniformNear(st, near, d);
+            snap(st);
+        }
+        void sampleGaussian(ob::State *st, const ob::State *mean, double sd) override
+        {
+            ob::RealVectorStateSampler::sampleGaussian(st, mean, sd);
+            snap(st);
+        }
+    };
+    class LatticeR2 : public ob::RealVectorStateSpace
+    {
+    public:
+        LatticeR2() : ob::RealVectorStateSpace(2)
+        {
+        }
+        ob::StateSamplerPtr allocDefaultStateSampler() const override
+        {
+            return std::make_shared<LatticeSampler>(this);
+        }
+    };
+
     inline ob::StateSpacePtr makeSpace(const std::string &kind, const World &w)
     {
+        if (kind == "LAT")
+        {
+            ob::RealVectorBounds bl(2);
+            bl.setLow(0, 0);
+            bl.setHigh(0, w.W);
+            bl.setLow(1, 0);
+            bl.setHigh(1, w.H);
+            auto s = std::make_shared<LatticeR2>();
+            s->setBounds(bl);
+            return s;
+        }
         ob::RealVectorBounds b2(2);
         b2.setLow(0, 0);
         b2.setHigh(0, w.W);
@@ -685,7 +746,7 @@ namespace lab
             return false;  // no default projection registered for arbitrary compounds
         if (kind == "DUBINS" && ((e.flags & F_SYMM) || ((e.flags & F_BIDIR) && !(e.flags & F_DIRAWARE))))
             return false;  // asymmetric motions: only direction-aware planners (forward trees, RRTConnect, BiTRRT)
-        if ((e.flags & F_MULTILEVEL) && !(kind == "R2" || kind == "SE2" || kind == "R3"))
+        if ((e.flags & F_MULTILEVEL) && !(kind == "R2" || kind == "SE2" || kind == "R3" || kind == "LAT"))
             return false;  // projections exist for SE(2) -> R^2 and R^3 -> R^2
         return true;
     }
